@@ -4,12 +4,21 @@
 (* all operation sequences up to a bound.                                           *)
 EXTENDS ConfigOps
 
-CONSTANTS Keys, Known, MaxOps
+CONSTANTS Keys, Known, MaxOps,
+          Varies,              \* {<<rule, dialect>>}: rules whose curated default is flipped for that dialect ({}: the code as is)
+          TableFollowsDialect  \* the table an overlay fills from is the one of the group's own dialect
 
 VARIABLES cfg, other, nops
 cvars == <<cfg, other, nops>>
 
 Curated == [k \in Known |-> IF k = "r1" THEN "On" ELSE "Off"]
+\* The curated defaults live in two places: inside the curated group built for a dialect
+\* (LintGroup::new_curated(dict, dialect).config) and in the table an overlay fills from
+\* (LintGroupConfig::new_curated / fill_with_curated: built once, for the American dialect).
+Dialects == {"American", "British"}
+Flip(v) == IF v = "On" THEN "Off" ELSE "On"
+GroupDefaults(d) == [k \in Known |-> IF <<k, d>> \in Varies THEN Flip(Curated[k]) ELSE Curated[k]]
+TableFor(d) == IF TableFollowsDialect THEN GroupDefaults(d) ELSE GroupDefaults("American")
 AllCfgs == UNION {[S -> Vals] : S \in SUBSET Keys}
 
 CInit == cfg \in AllCfgs /\ other \in AllCfgs /\ nops = 0
@@ -26,6 +35,9 @@ CNext ==
 \* state invariants (each quantifies over the possible next operation)
 DisabledMeansOffOrUnset == \A k \in Keys : Enabled(cfg, k) <=> Meaning(cfg, k) = "On"
 OverlayGivesDefaultsWhereUnset == OverlayOk(cfg, Curated, FillWithCurated(cfg, Curated))
+\* "rules the user has not mentioned take their curated defaults": the defaults of the group being configured
+OverlayMatchesGroup == \A d \in Dialects : \A k \in Known :
+   Meaning(cfg, k) = "None" => (Enabled(FillWithCurated(cfg, TableFor(d)), k) <=> GroupDefaults(d)[k] = "On")
 ExplicitWinsInMerge == MergeOk(cfg, other, MergeFrom(cfg, other))
 UnknownKeysHarmless ==
   \A k \in Keys \ Known : \A v \in Vals :
